@@ -394,6 +394,235 @@ theorem plain_sound (env : Env) (doc : PV) : ∀ fuel,
         intro a ha s r s' hr
         exact ihQ _ _ _ _ _ _ _ hp (he a ha) hr
 
+/-- variable-free query parts: the plain ones, `[*]` / `.*` with a key-capture name, and FILTERS with any
+    content (the filter's clauses may use variables, functions, anything: they only select) -/
+def vfPart : QueryPart → Bool
+  | .this => true
+  | .key k => !(QueryPart.key k).isVariable
+  | .index _ => true
+  | .allIndices _ => true
+  | .allValues _ => true
+  | .filter _ _ => true
+  | .mapKeyFilter _ _ _ _ => false
+
+theorem vfPart_not_var {p : QueryPart} (h : vfPart p = true) : p.isVariable = false := by
+  cases p <;> simp_all [vfPart, QueryPart.isVariable, QueryPart.variable]
+
+set_option maxHeartbeats 1600000 in
+theorem vf_sound (env : Env) (doc : PV) : ∀ fuel,
+  (∀ qi query current conv st res st', query.all vfPart = true → InDoc doc current →
+     queryRetrieval env fuel qi query current conv st = .ok (res, st') → ∀ r ∈ res, QROk doc r) ∧
+  (∀ parent qi query elements conv st res st', query.all vfPart = true → InDoc doc parent → (∀ e ∈ elements, InDoc doc e) →
+     accumulate env fuel parent qi query elements conv st = .ok (res, st') → ∀ r ∈ res, QROk doc r) ∧
+  (∀ cnf name index query key value conv st res st', query.all vfPart = true → InDoc doc value →
+     checkAndDelegate env fuel cnf name index query key value conv st = .ok (res, st') → ∀ r ∈ res, QROk doc r) := by
+  intro fuel
+  induction fuel with
+  | zero =>
+    refine ⟨?_, ?_, ?_⟩
+    · intro qi query current conv st res st' _ _ h; simp [queryRetrieval, outOfFuel] at h
+    · intro parent qi query elements conv st res st' _ _ _ h; simp [accumulate, outOfFuel] at h
+    · intro cnf name index query key value conv st res st' _ _ h; simp [checkAndDelegate, outOfFuel] at h
+  | succ fuel ih =>
+    obtain ⟨ihQ, ihA, ihC⟩ := ih
+    refine ⟨?_, ?_, ?_⟩
+    · intro qi query current conv st res st' hp hc h
+      simp only [queryRetrieval] at h
+      cases hq : query[qi]? with
+      | none =>
+        rw [hq] at h; simp only at h
+        exact leaf_pure h hc
+      | some part =>
+        rw [hq] at h; simp only at h
+        have hpp : vfPart part = true := List.all_eq_true.mp hp part (List.mem_of_getElem? hq)
+        have hv : part.isVariable = false := vfPart_not_var hpp
+        simp only [hv, Bool.and_false, Bool.false_eq_true, ↓reduceIte] at h
+        cases part with
+        | this => exact ihQ _ _ _ _ _ _ _ hp hc h
+        | key key =>
+          simp only at h
+          cases hk : parseI32 key with
+          | some idx =>
+            rw [hk] at h; simp only at h
+            cases current with
+            | list p xs =>
+              simp only at h
+              rcases C10_retrieveIndex idx query hc with ⟨w, e, hw, _⟩ | ⟨u, e, hu, _⟩
+              · rw [e] at h; exact ihQ _ _ _ _ _ _ _ hp hw h
+              · rw [e] at h; simp only at h
+                exact leaf_pure h (by simp [QROk, hu]; exact hc)
+            | _ => exact leaf_pure h hc
+          | none =>
+            rw [hk] at h; simp only at h
+            cases current with
+            | map p ks vs =>
+              simp only [hv, Bool.false_eq_true, ↓reduceIte] at h
+              cases h1 : PV.lookupKV ks vs key with
+              | some val => rw [h1] at h; exact ihQ _ _ _ _ _ _ _ hp (C10_key_step hc h1) h
+              | none =>
+                rw [h1] at h; simp only at h
+                cases conv with
+                | some c =>
+                  simp only at h
+                  cases h2 : PV.lookupKV ks vs (env.caseConv c key) with
+                  | some val => rw [h2] at h; exact ihQ _ _ _ _ _ _ _ hp (C10_key_step hc h2) h
+                  | none => rw [h2] at h; exact leaf_pure h hc
+                | none =>
+                  simp only at h
+                  cases h3 : (List.range 7).find? (fun c => (PV.lookupKV ks vs (env.caseConv c key)).isSome) with
+                  | some c =>
+                    rw [h3] at h; simp only at h
+                    cases h2 : PV.lookupKV ks vs (env.caseConv c key) with
+                    | some val => rw [h2] at h; exact ihQ _ _ _ _ _ _ _ hp (C10_key_step hc h2) h
+                    | none => rw [h2] at h; exact leaf_pure h hc
+                  | none => rw [h3] at h; exact leaf_pure h hc
+            | _ => exact leaf_pure h hc
+        | index index =>
+          simp only at h
+          cases current with
+          | list p xs =>
+            simp only at h
+            rcases C10_retrieveIndex index query hc with ⟨w, e, hw, _⟩ | ⟨u, e, hu, _⟩
+            · rw [e] at h; exact ihQ _ _ _ _ _ _ _ hp hw h
+            · rw [e] at h; simp only at h
+              exact leaf_pure h (by simp [QROk, hu]; exact hc)
+          | _ => exact leaf_pure h hc
+        | allIndices name =>
+          cases name with
+          | some n =>
+            simp only at h
+            cases current with
+            | list p xs => exact ihA _ _ _ _ _ _ _ _ hp hc (fun e he => C10_mem_step hc he) h
+            | map p ks vs =>
+              simp only at h
+              refine accumulateMap_ok (P := QROk doc) hc ?_ h
+              intro q k each hm s r s' hr
+              obtain ⟨_, s1, _, h2⟩ := M.bind_ok hr
+              exact ihQ _ _ _ _ _ _ _ hp (C10_value_step hc hm) h2
+            | _ => exact ihQ _ _ _ _ _ _ _ hp hc h
+          | none =>
+            simp only at h
+            cases current with
+            | list p xs => exact ihA _ _ _ _ _ _ _ _ hp hc (fun e he => C10_mem_step hc he) h
+            | map p ks vs => exact ihQ _ _ _ _ _ _ _ hp hc h
+            | _ => exact ihQ _ _ _ _ _ _ _ hp hc h
+        | allValues name =>
+          simp only at h
+          cases current with
+          | list p xs => exact ihA _ _ _ _ _ _ _ _ hp hc (fun e he => C10_mem_step hc he) h
+          | map p ks vs =>
+            simp only at h
+            refine accumulateMap_ok (P := QROk doc) hc ?_ h
+            intro q k each hm s r s' hr
+            cases name with
+            | some n =>
+              obtain ⟨_, s1, _, h2⟩ := M.bind_ok hr
+              exact ihQ _ _ _ _ _ _ _ hp (C10_value_step hc hm) h2
+            | none => exact ihQ _ _ _ _ _ _ _ hp (C10_value_step hc hm) hr
+          | _ => exact ihQ _ _ _ _ _ _ _ hp hc h
+        | mapKeyFilter _ _ _ _ => simp [vfPart] at hpp
+        | filter name cnf =>
+          simp only at h
+          cases current with
+          | map p ks vs =>
+            simp only at h
+            by_cases hq0 : (qi == 0) = true
+            · simp only [hq0, ↓reduceIte] at h; cases h
+            · simp only [hq0, Bool.false_eq_true, ↓reduceIte] at h
+              have hother : withValueScope (PV.map p ks vs)
+                  (checkAndDelegate env fuel cnf none (qi + 1) query (PV.map p ks vs) (PV.map p ks vs) conv) st = .ok (res, st') →
+                  ∀ r ∈ res, QROk doc r := by
+                intro h
+                obtain ⟨s1, s2, h'⟩ := withValueScope_ok h
+                exact ihC _ _ _ _ _ _ _ _ _ _ hp hc h'
+              cases hprev : query[qi - 1]? with
+              | none => rw [hprev] at h; exact hother h
+              | some pp =>
+                rw [hprev] at h
+                cases pp with
+                | key kk =>
+                  simp only at h
+                  by_cases hve : (!vs.isEmpty) = true
+                  · simp only [hve, ↓reduceIte] at h
+                    refine accumulateMap_ok (P := QROk doc) hc ?_ h
+                    intro q k each hm s r s' hr
+                    exact ihC _ _ _ _ _ _ _ _ _ _ hp (C10_value_step hc hm) hr
+                  · simp only [hve, Bool.false_eq_true, ↓reduceIte] at h
+                    obtain ⟨rfl, _⟩ := M.pure_ok h
+                    intro r hr; simp at hr
+                | this => exact hother h
+                | index _ => exact hother h
+                | allIndices _ => exact hother h
+                | allValues _ => exact hother h
+                | filter _ _ => exact hother h
+                | mapKeyFilter _ _ _ _ => exact hother h
+          | list p xs =>
+            simp only at h
+            obtain ⟨rows, s1, h1, h2⟩ := M.bind_ok h
+            obtain ⟨rfl, _⟩ := M.pure_ok h2
+            refine M.mapM_flatten_all (QROk doc) _ xs ?_ st rows s1 h1
+            intro a ha s r s' hr
+            obtain ⟨status, s2, _, h4⟩ := M.bind_ok hr
+            cases status with
+            | pass => exact ihQ _ _ _ _ _ _ _ hp (C10_mem_step hc ha) h4
+            | fail => obtain ⟨rfl, _⟩ := M.pure_ok h4; intro r hr; simp at hr
+            | skip => obtain ⟨rfl, _⟩ := M.pure_ok h4; intro r hr; simp at hr
+          | _ =>
+            simp only at h
+            by_cases hq0 : (qi == 0) = true
+            · simp only [hq0, ↓reduceIte] at h; cases h
+            · simp only [hq0, Bool.false_eq_true, ↓reduceIte] at h
+              cases hprev : query[qi - 1]? with
+              | none => rw [hprev] at h; exact leaf_pure h hc
+              | some pp =>
+                rw [hprev] at h
+                cases pp with
+                | allIndices _ =>
+                  simp only at h
+                  obtain ⟨status, s2, _, h4⟩ := M.bind_ok h
+                  cases status with
+                  | pass => exact ihQ _ _ _ _ _ _ _ hp hc h4
+                  | fail => obtain ⟨rfl, _⟩ := M.pure_ok h4; intro r hr; simp at hr
+                  | skip => obtain ⟨rfl, _⟩ := M.pure_ok h4; intro r hr; simp at hr
+                | this => exact leaf_pure h hc
+                | key _ => exact leaf_pure h hc
+                | index _ => exact leaf_pure h hc
+                | allValues _ => exact leaf_pure h hc
+                | filter _ _ => exact leaf_pure h hc
+                | mapKeyFilter _ _ _ _ => exact leaf_pure h hc
+    · intro parent qi query elements conv st res st' hp hc he h
+      simp only [accumulate] at h
+      split at h
+      · exact leaf_pure h hc
+      · obtain ⟨rows, s1, h1, h2⟩ := M.bind_ok h
+        obtain ⟨rfl, _⟩ := M.pure_ok h2
+        refine M.mapM_flatten_all (QROk doc) _ elements ?_ st rows s1 h1
+        intro a ha s r s' hr
+        exact ihQ _ _ _ _ _ _ _ hp (he a ha) hr
+    · intro cnf name index query key value conv st res st' hp hv h
+      simp only [checkAndDelegate] at h
+      obtain ⟨status, s1, _, h2⟩ := M.bind_ok h
+      cases name with
+      | none =>
+        cases status with
+        | pass => exact ihQ _ _ _ _ _ _ _ hp hv h2
+        | fail => obtain ⟨rfl, _⟩ := M.pure_ok h2; intro r hr; simp at hr
+        | skip => obtain ⟨rfl, _⟩ := M.pure_ok h2; intro r hr; simp at hr
+      | some n =>
+        cases status with
+        | pass =>
+          simp only [beq_self_eq_true, ↓reduceIte] at h2
+          obtain ⟨_, s2, _, h4⟩ := M.bind_ok h2
+          exact ihQ _ _ _ _ _ _ _ hp hv h4
+        | fail =>
+          have : (Status.fail == Status.pass) = false := rfl
+          simp only [this, Bool.false_eq_true, ↓reduceIte] at h2
+          obtain ⟨rfl, _⟩ := M.pure_ok h2; intro r hr; simp at hr
+        | skip =>
+          have : (Status.skip == Status.pass) = false := rfl
+          simp only [this, Bool.false_eq_true, ↓reduceIte] at h2
+          obtain ⟨rfl, _⟩ := M.pure_ok h2; intro r hr; simp at hr
+
 /-- **plain queries are sound**: whatever `queryRetrieval` returns for a query made of keys,
     indices, `[*]`, `.*` and `this` on a loaded document — for every fuel, scope state and
     case-conversion mode — each resolved value and each value an unresolved result stopped at
@@ -411,6 +640,28 @@ theorem C10_plain_query_sound (env : Env) (x : Plain) (fuel : Nat) (query : List
   | resolved v => exact C10_reported_path_resolves x v this
   | unresolved u => exact C10_reported_path_resolves x u.traversedTo this
   | literal v => exact this
+
+/-- **queries with filters are sound**: whatever `queryRetrieval` returns for a query made of keys, indices,
+    `[*]`, `.*` (with or without key capture), `this` and FILTERS OF ANY CONTENT on a loaded document — for every
+    fuel, scope state, rules file and case-conversion mode — is a value of the document carrying the pointer that
+    reaches it, or an unresolved result that stopped at such a value.  (A filter only selects among the values it
+    is applied to; whatever its clauses evaluate, nothing they produce leaks into the result.) -/
+theorem C10_filter_query_sound (env : Env) (x : Plain) (fuel : Nat) (query : List QueryPart)
+    (hq : query.all vfPart = true) (conv : Option Nat) (st st' : St) (res : List QR)
+    (h : queryRetrieval env fuel 0 query (PV.ofPlain x Path.root) conv st = .ok (res, st')) :
+    ∀ r ∈ res, match r with
+      | .resolved v => ∃ segs, Reach (PV.ofPlain x Path.root) segs v ∧ v.path.ptr = ptrOf [] segs
+      | .unresolved u => ∃ segs, Reach (PV.ofPlain x Path.root) segs u.traversedTo ∧ u.traversedTo.path.ptr = ptrOf [] segs
+      | .literal _ => False := by
+  intro r hr
+  have := (vf_sound env (PV.ofPlain x Path.root) fuel).1 0 query _ conv st res st' hq (InDoc.refl _) h r hr
+  cases r with
+  | resolved v => exact C10_reported_path_resolves x v this
+  | unresolved u => exact C10_reported_path_resolves x u.traversedTo this
+  | literal v => exact this
+
+example (c : Cnf) : [QueryPart.key "Resources".toList, .allValues none, .filter none c, .key "Properties".toList].all vfPart = true := by
+  simp [vfPart, QueryPart.isVariable, QueryPart.variable]
 
 example : [QueryPart.key "a".toList, .allIndices none, .index 1, .allValues none, .this].all plainPart = true := by decide
 
